@@ -12,7 +12,7 @@ from mc import terms as T
 LEVEL = "exploration"
 
 
-def validate(data: bytes, delimited: bool, expect: list, expect_ns=None):
+def validate(data: bytes, delimited: bool, expect: list, expect_ns=None, as_set=False):
     """Return None if jspec accepts `data` and it denotes `expect`; else (fail, msg)."""
     try:
         frames = jwire.read_delimited(data) if delimited else jwire.read_single(data)
@@ -23,6 +23,8 @@ def validate(data: bytes, delimited: bool, expect: list, expect_ns=None):
     except jspec.SpecViolation as e:
         return "spec:" + e.rule, str(e)
     got = [T.norm_st(s) for s in jspec.statements(per)]
+    if as_set:  # rdflib containers are sets: their iteration order is not pyjelly's
+        got, expect = sorted(set(got), key=repr), sorted(set(expect), key=repr)
     if got != expect:
         return "denotes-other", f"reference decoder reads {got}, input was {expect}"
     if expect_ns is not None:
@@ -40,7 +42,8 @@ def judge(case, seq, data, exc, acc) -> None:
         return
     acc.counters["streams"] += 1
     acc.extra.setdefault("digests", set()).add(hash(data))
-    r = validate(data, case["delimited"], T.norm_seq(seq))
+    r = validate(data, case["delimited"], T.norm_seq(seq),
+                 as_set=case.get("api") == "rdflib")
     if r is not None:
         acc.violation({**sig, "fail": r[0]},
                       f"emitted stream rejected by the reference decoder: {r[1]} case={case}",
